@@ -502,6 +502,27 @@ def stepUntilLocal (h : SHandler σ T) (n p : Nat) : Nat → Sim σ T → Option
       | .ok (false, s) => some (.ok (none, s))
       | .ok (true, s) => stepUntilLocal h n p f s
 
+/-- `System::step_until_local_message_timeout`: like `step_until_local_message`, but gives up (without reading the outbox
+    again) as soon as the clock has reached `end = clock at the call + timeout`; the outbox is only read while
+    `clock < end`. -/
+def stepUntilLocalTimeoutGo (h : SHandler σ T) (n p : Nat) (endT : T) : Nat → Sim σ T → Option (R (Option (List Msg) × Sim σ T))
+  | 0, _ => none
+  | f + 1, s =>
+    if TimeOps.lt s.clock endT then
+      match s.readNode n p with
+      | .error e => some (.error e)
+      | .ok (some ms, s) => some (.ok (some ms, s))
+      | .ok (none, s) =>
+        match step h s with
+        | .error e => some (.error e)
+        | .ok (false, s) => some (.ok (none, s))
+        | .ok (true, s) => stepUntilLocalTimeoutGo h n p endT f s
+    else some (.ok (none, s))
+
+def stepUntilLocalTimeout (h : SHandler σ T) (n p : Nat) (timeout : T) (fuel : Nat) (s : Sim σ T) :
+    Option (R (Option (List Msg) × Sim σ T)) :=
+  stepUntilLocalTimeoutGo h n p (TimeOps.add s.clock timeout) fuel s
+
 /-- `System::step_until_local_message_max_steps` -/
 def stepUntilLocalMax (h : SHandler σ T) (n p : Nat) (maxSteps : Nat) (s : Sim σ T) : R (Option (List Msg) × Sim σ T) :=
   match s.readNode n p with
